@@ -164,3 +164,60 @@ def c18_table(tier, rng):
                              "observed": got, "required": want})
     return {"obligations": obl, "discharged": dis, "violations": viol, "cases": obl, "exhaustive": True,
             "bound": "all 81x81 site dinucleotide pairs", "samples": [{"left": "GT", "right": "AG", "strand": "+"}]}
+
+
+def _isolation_case(seed):
+    import random
+    rng = random.Random(seed)
+    gi = native.repo_import("src/gene_info.py")
+    com = native.repo_import("src/common.py")
+    aio = native.repo_import("src/assignment_io.py")
+    def seq():
+        return "".join(rng.choice(["GT", "AG", "CT", "AC", "GC", "AT", "NN"]) for _ in range(15))
+    problems = []
+    introns = [(2 * rng.randint(0, 5) + 1, 2 * rng.randint(7, 13)) for _ in range(rng.randint(1, 3))]
+    s1, s2 = seq(), seq()
+    d1 = gi.StrandDetector(s1)
+    for i in introns:
+        d1.set_strand(i) if rng.random() < .5 else d1.get_strand([i])
+        if rng.random() < .3:
+            d1.set_strand(i, rng.choice("+-"))        # strand taken from the annotation of the first chromosome
+    d2 = gi.StrandDetector(s2)                          # a new chromosome / locus: must not see anything of the first
+    for i in introns:
+        want = com.get_intron_strand(i, s2)
+        got_clean = d2.get_clean_strand([i])
+        if got_clean != (want if want in "+-" else "."):
+            problems.append("fresh detector on a new sequence answers %s for intron %s, its own sequence says %s" % (got_clean, i, want))
+    # canonical flag on a fresh gene_info must not depend on earlier gene_infos either
+    io = aio.IOSupport.__new__(aio.IOSupport)
+    for s in (s1, s2):
+        g = gi.GeneInfo.from_region("chr", 1, len(s))
+        g.all_read_region_start, g.reference_region = 1, s
+        for i in introns:
+            for strand in "+-":
+                tbl = com.CANONICAL_FWD_SITES if strand == "+" else com.CANONICAL_REV_SITES
+                want = (s[i[0] - 1:i[0] + 1], s[i[1] - 2:i[1]]) in tbl
+                if io.check_sites_are_canonical([i], g, strand) != want:
+                    problems.append("canonical flag of %s on %s differs from the sequence" % (i, strand))
+    return problems
+
+
+def replay_isolation(d):
+    p = _isolation_case(d["inputs"]["seed"])
+    return (not p), "seed %s: %s" % (d["inputs"]["seed"], p or "isolated")
+
+
+@bounded("C18.history_isolation", ["C18", "C10"], note="a StrandDetector / GeneInfo created for a second chromosome after a first one was "
+         "processed (same intron coordinates, different sequence, annotation strands set on the first) must answer from its own "
+         "sequence only; bound: N random sequence pairs")
+def c18_isolation(tier, rng):
+    n = 300 if tier == "quick" else 20000
+    base = rng.randrange(10 ** 9)
+    for k in range(n):
+        p = _isolation_case(base + k)
+        if p:
+            return {"cases": k + 1, "bound": "%d pairs" % n, "violations": [{
+                "obligation": "C18.history_isolation", "inputs": {"seed": base + k}, "observed": p[:3],
+                "required": "answers depend on the record's own reference sequence only",
+                "replay_call": "contracts.c_strand:replay_isolation"}]}
+    return {"cases": n, "bound": "%d random sequence pairs" % n, "violations": [], "samples": [{"seed": base}]}
